@@ -98,6 +98,7 @@ def run_combine(inloglam, flux, newloglam, ivar, kwargs):
     maxsep = kwargs.get('maxsep', 2.0 * binsz)
     out['maxsep'] = float(maxsep)
     out['binsz'] = float(binsz)
+    out['bkptbin'] = float(kwargs.get('bkptbin', 1.2 * binsz))
     fits = []
     fullcomb = np.zeros(npix, dtype=bool)
     isort = np.zeros(0, dtype=int)
@@ -214,6 +215,15 @@ def main():
             res.append(do_combine(c))
         elif c['f'] == 'preprocess':
             res.append(do_preprocess(c))
+        elif c['f'] == 'probe-empty':
+            # an EMPTY output grid: observed, not judged (see notes/C11.md, round 5)
+            try:
+                with warnings.catch_warnings():
+                    warnings.simplefilter('ignore')
+                    nf, ni = SP.combine1fiber(arr(c['inloglam']), arr(c['flux']), np.zeros(0), objivar=arr(c.get('ivar')))
+                res.append({'outcome': 'ok' if (nf.shape == (0,) and ni.shape == (0,)) else 'wrong-shape'})
+            except Exception as e:  # noqa: BLE001
+                res.append({'outcome': type(e).__name__})
         else:
             res.append({'err': 'BadCall', 'stage': 'harness'})
     real_stdout.write(json.dumps({'pydl_file': pydl.__file__, 'results': res}, allow_nan=False))
